@@ -25,6 +25,7 @@ import (
 	"github.com/cloudwego/hertz/pkg/network"
 	"github.com/cloudwego/hertz/pkg/network/standard"
 	"github.com/cloudwego/hertz/pkg/protocol"
+	"github.com/cloudwego/hertz/pkg/protocol/client"
 	"github.com/cloudwego/hertz/pkg/protocol/http1"
 	"github.com/cloudwego/hertz/verifrt"
 )
@@ -43,10 +44,11 @@ const (
 	ACloseHeader // closes in the middle of the header
 	ACloseBody   // closes in the middle of the body
 	AStall       // never answers
+	ASlow        // answers completely, but only after the caller's request timeout (and before the read timeout)
 	nAnswers
 )
 
-var answerNames = []string{"ok", "ok+close", "silent-close-idle", "close-before-first-byte", "close-mid-header", "close-mid-body", "stall"}
+var answerNames = []string{"ok", "ok+close", "silent-close-idle", "close-before-first-byte", "close-mid-header", "close-mid-body", "stall", "slow"}
 
 type Scenario struct {
 	Name     string `json:"name"`
@@ -55,6 +57,9 @@ type Scenario struct {
 	MaxConns int    `json:"max_conns"`
 	Wait     bool   `json:"wait"` // MaxConnWaitTimeout > 0
 	ReqTO    bool   `json:"req_timeout,omitempty"`
+	// GetURL: the calls are client.GetURLTimeout(url, reqTimeout) - the helper that runs the exchange on a goroutine of
+	// its own and hands the result over a channel, abandoning it at the timeout - instead of HostClient.Do
+	GetURL bool `json:"get_url,omitempty"`
 }
 
 // Plan: answer of the peer to the k-th request it receives (arrival order), dial errors, cancelled calls.
@@ -128,6 +133,8 @@ type sconn struct {
 	sawErr   bool   // the client got an error from this connection
 	lastAns  int
 	exch     int
+	slowAt   time.Duration // ASlow: when the held-back response becomes readable
+	slowOut  []byte
 }
 
 func (c *sconn) Read(p []byte) (int, error) {
@@ -149,6 +156,9 @@ func (c *sconn) Read(p []byte) (int, error) {
 		}
 	}
 	verifrt.BlockUntil(fmt.Sprintf("conn%d.Read", c.id), func() bool {
+		if c.slowOut != nil && s.NowLocked() >= c.slowAt {
+			c.out, c.slowOut = append(c.out, c.slowOut...), nil
+		}
 		return len(c.out) > 0 || c.eof || c.closed || (c.hasDL && s.NowLocked() >= c.readDL)
 	})
 	if waited := verifrt.VNow() - start; waited > readTimeout && verifrt.NoSlack() {
@@ -227,6 +237,11 @@ func (c *sconn) request(head, from string) {
 			id = ln[6:]
 		}
 	}
+	if id == "" { // requests of the GetURL helper carry their identity in the path only
+		if f := strings.Fields(lines[0]); len(f) > 1 {
+			id = strings.TrimPrefix(f[1], "/")
+		}
+	}
 	if method == "POST" {
 		w.posts[id]++
 		if w.posts[id] > 1 {
@@ -267,6 +282,11 @@ func (c *sconn) request(head, from string) {
 		c.eof = true
 	case AStall:
 		c.respLeft = len(full)
+	case ASlow:
+		c.respLeft = len(full)
+		c.slowOut = full
+		c.slowAt = verifrt.VNow() + reqTimeout + 500*time.Millisecond
+		verifrt.TimerAt(c.slowAt, fmt.Sprintf("conn%d-slow-answer", c.id))
 	}
 }
 
@@ -347,6 +367,15 @@ func (w *World) Body() func() {
 					rec.method = "GET"
 					if (t+m)%2 == 1 {
 						rec.method = "POST"
+					}
+					if job.Sc.GetURL {
+						rec.method = "GET"
+						rec.start = verifrt.VNow()
+						var body []byte
+						rec.status, body, rec.err = client.GetURLTimeout(context.Background(), nil, "http://h/"+rec.id, reqTimeout, hc)
+						rec.end = verifrt.VNow()
+						rec.body = string(body)
+						continue
 					}
 					req, resp := &protocol.Request{}, &protocol.Response{}
 					req.SetMethod(rec.method)
@@ -451,7 +480,7 @@ func (w *World) quiescence() {
 			}
 		}
 		limit := time.Duration(0)
-		if w.job.Sc.ReqTO {
+		if w.job.Sc.ReqTO || w.job.Sc.GetURL {
 			limit = reqTimeout
 		}
 		if limit > 0 && c.end-c.start > limit && verifrt.NoSlack() {
